@@ -47,8 +47,19 @@ def mutate_schema(draw, d, s):
 def cases(draw):
     d = draw(st.sampled_from(impl.DRAFTS))
     src = draw(st.sampled_from(["well-meant", "mutated", "mutated", "liberal", "liberal", "arbitrary", "metaschema",
-                                "deep"]))
-    if src == "well-meant":
+                                "deep", "number-mix"]))
+    if src == "number-mix":
+        # several keywords of one kind whose values differ only in being integral or not (1.0 vs 1.5 vs 1): each
+        # is judged for itself, in whatever order the metaschema is walked
+        ks = ["maxLength", "minLength", "maxItems", "minItems"] + (["maxProperties", "minProperties"] if d >= 4 else [])
+        nums = [1.0, 1.5, 2.0, 0.5, 3, 0, 0.0, 2.5, 1e2, 7.000001]
+
+        def flat():
+            return dict((k, draw(st.sampled_from(nums))) for k in draw(st.lists(st.sampled_from(ks), min_size=2, max_size=4, unique=True)))
+        c = flat()
+        if draw(st.booleans()):
+            c = dict(draw(st.sampled_from([{"properties": {"a": flat()}}, {"items": flat()}, {"additionalProperties": flat()}])), **c)
+    elif src == "well-meant":
         c = draw(GS.root_schemas(d, 8))
     elif src == "mutated":
         c = draw(mutate_schema(d, draw(GS.root_schemas(d, 8))))
@@ -82,7 +93,7 @@ class C11(Prop):
     QUICK = 800
     THOROUGH = 20000
     RULE = ("case = (draft, candidate schema: well-meant, well-meant with 1-3 type/shape mutations at any depth, "
-            "liberal unfiltered, arbitrary JSON incl. non-objects, or one of the four bundled metaschemas).  Oracle: "
+            "liberal unfiltered, several numeric keywords with integral / fractional float values, arbitrary JSON incl. non-objects, or one of the four bundled metaschemas).  Oracle: "
             "check_schema returns normally iff O-SPEC (independent evaluator with its own '#'-pointer resolver) finds "
             "the candidate valid against the class's bundled META_SCHEMA under that draft's rules; otherwise the "
             "exception is exactly SchemaError.  Accepted candidates are then validated against 2 hostile instances "
